@@ -419,17 +419,18 @@ static void explore(const Case &c, const Out &o, int K) {
       long double cnt = k1 - k0 + 1;
       long double step = cnt > 4000 ? floorl(cnt / 4000) : 1;
       for (long double k = k0; k <= k1; k += step) {
-        long double y;
+        long double y, segw = 0;
         if (n == 1) y = pl.y_[0];
         else {
           size_t s = std::upper_bound(pl.x_.begin(), pl.x_.end(), (double)k) - pl.x_.begin();
           s = s == 0 ? 0 : std::min(s - 1, n - 2);
           y = pl_eval(pl, k, s);
+          segw = (long double)pl.x_[s + 1] - pl.x_[s];
         }
         long double f = ref(c.fn, c.prm, k);
         long double r = err_ratio(f, y, c.tol);
         if (r > w.ratio && std::isfinite((double)r)) {
-          w.ratio = r; w.x = k; w.f = f; w.pl = y; w.w = 0;
+          w.ratio = r; w.x = k; w.f = f; w.pl = y; w.w = segw;
           w.where = (k < pl.x_.front() || k > pl.x_.back()) ? "int-outside" : "int";
         }
       }
@@ -477,7 +478,7 @@ static void explore(const Case &c, const Out &o, int K) {
   const char *cls = "within";
   if (w.ratio > 1.001L) {
     if (!std::strcmp(w.where, "left-of-first") || !std::strcmp(w.where, "right-of-last") || !std::strcmp(w.where, "int-outside")) cls = "outside-breakpoints";
-    else if (!std::strcmp(w.where, "int")) cls = "integer-point";
+    else if (!std::strcmp(w.where, "int") && n == 1) cls = "single-point";
     else if (!std::strcmp(w.where, "single")) cls = "single-point";
     else if (w.w <= 2.5e-4L) cls = "min-spacing";
     else cls = "step-control";
